@@ -344,4 +344,15 @@ def c13_f(ctx: Ctx):
     return out
 
 
-RULES = [c13_a, c13_b, c13_c, c13_d, c13_e, c13_f]
+@rule("C13-g")
+def c13_g(ctx: Ctx):
+    """Exclude handling cannot strip state point / document files from cloned jobs, and the clone / sync decision rests on DestinationExistsError (from C15-d, C04-b)."""
+    from .c15 import c15_d
+    from .c04 import c04_b
+    res = [r for r in c15_d(ctx) if ("exclude" in r.construct or "clone" in r.construct) and "clone-exclude" not in r.construct] + [r for r in c04_b(ctx) if "Project.clone" in r.function]
+    for r in res:
+        r.rule = "C13-g"
+    return res
+
+
+RULES = [c13_a, c13_b, c13_c, c13_d, c13_e, c13_f, c13_g]
